@@ -262,10 +262,26 @@ def replay(spec):
         scale = max(np.abs(lam * f1).max(), np.abs(f2).max(), np.abs(comb).max(), 1e-300)
         d = np.abs(comb - exp).max()
         return bool(d > 1e-9 * scale), f"{w.func} {f}: |F(l*J1+J2) - l*F(J1) - F(J2)| = {d:.3e} (scale {scale:.3e}) args={spec['args']} J1={spec['J1']} J2={spec['J2']} l={lam}"
-    scaled = np.asarray(w.call_float(f, {**args, ex: lam * args[ex]}), dtype=float)
-    base = np.asarray(w.call_float(f, args), dtype=float)
-    if not np.all(np.isfinite(scaled + base)):
-        return False, "non-finite (singular point)"
-    d = np.abs(scaled - lam * base).max()
-    scale = max(np.abs(scaled).max(), 1e-300)
-    return bool(d > 1e-9 * scale), f"{w.func} {f}: |F(l*J) - l*F(J)| = {d:.3e} args={spec['args']} l={lam}"
+    # the model's excitation, then its single-component projections J_k e_k with the same factor: a branch that depends on one small
+    # component of the excitation changes the value by an amount that is invisible next to the contribution of a large other component,
+    # but F(l * J_k e_k) = l * F(J_k e_k) is the same property and shows it (each is a real run of the real kernel)
+    J0 = args[ex]
+    variants = [J0]
+    if np.ndim(J0) == 2 and J0.shape[-1] == 3:
+        for kk in range(3):
+            if J0[0, kk] != 0 and np.count_nonzero(J0[0]) > 1:
+                Jk = np.zeros_like(J0)
+                Jk[:, kk] = J0[:, kk]
+                variants.append(Jk)
+    last = (False, "non-finite (singular point)")
+    for Jv in variants:
+        scaled = np.asarray(w.call_float(f, {**args, ex: lam * Jv}), dtype=float)
+        base = np.asarray(w.call_float(f, {**args, ex: Jv}), dtype=float)
+        if not np.all(np.isfinite(scaled + base)):
+            continue
+        d = np.abs(scaled - lam * base).max()
+        scale = max(np.abs(scaled).max(), np.abs(lam * base).max(), 1e-300)
+        last = (bool(d > 1e-9 * scale), f"{w.func} {f}: |F(l*J) - l*F(J)| = {d:.3e} (scale {scale:.3e}) args={ {**spec['args'], ex: Jv.tolist()} } l={lam}")
+        if last[0]:
+            return last
+    return last
